@@ -48,6 +48,7 @@ type workload struct {
 	localPaths bool // ResolveLocalPath
 	// injected restore-side errors are not-found conditions that wrap resolver.ErrPackageNotFound
 	notFoundErrs bool
+	tempErrs     bool // injected errors call themselves temporary
 	stayDown     bool // the inner name resolver fails from call j on (not just once)
 	junkNames    bool // failing name-resolver calls return a non-empty name with the error
 }
@@ -197,6 +198,7 @@ func draw(run *core.Run) *workload {
 	}
 	w.localPaths = t.Bool(1, 8)
 	w.notFoundErrs = t.Bool(1, 3)
+	w.tempErrs = !w.notFoundErrs && t.Bool(1, 3)
 	w.stayDown = t.Bool(1, 3)
 	w.junkNames = t.Bool(1, 2)
 	run.Describe("source (%d bytes, %d imports, %d decls):\n%s", len(w.spec.Src), len(w.spec.Imports), w.spec.Decls, w.spec.Src)
@@ -356,7 +358,11 @@ func Run(run *core.Run) {
 	}
 	for k := 1; k <= N && !run.Failed(); k++ {
 		cased(fmt.Sprintf("%s:ident:%d", wkey, k), func() {
-			decorateFault(run, w, truth, &faults.Plan{KthCall: k}, nil, twinDecorated, fmt.Sprintf("ident#%d", k))
+			plan := &faults.Plan{KthCall: k}
+			if w.tempErrs {
+				plan.Err = faults.NewTemp(fmt.Sprint(k))
+			}
+			decorateFault(run, w, truth, plan, nil, twinDecorated, fmt.Sprintf("ident#%d", k))
 		})
 	}
 	for j := 1; j <= M && !run.Failed(); j++ {
@@ -367,6 +373,8 @@ func Run(run *core.Run) {
 			}
 			if w.notFoundErrs {
 				plan.Err = faults.NewNotFound(fmt.Sprint(j))
+			} else if w.tempErrs {
+				plan.Err = faults.NewTemp(fmt.Sprint(j))
 			}
 			decorateFault(run, w, truth, nil, plan, twinDecorated, fmt.Sprintf("inner#%d", j))
 		})
@@ -381,6 +389,8 @@ func Run(run *core.Run) {
 			plan := &faults.Plan{Paths: map[string]bool{p: true}, JunkName: w.junkNames}
 			if w.notFoundErrs {
 				plan.Err = faults.NewNotFound(p) // a not-found condition that is not the bare sentinel
+			} else if w.tempErrs {
+				plan.Err = faults.NewTemp(p)
 			}
 			restoreFault(run, w, truth, []*faults.Plan{plan}, twinBytes, "path:"+p)
 		})
@@ -390,6 +400,8 @@ func Run(run *core.Run) {
 			plan := &faults.Plan{KthCall: k, JunkName: w.junkNames}
 			if w.notFoundErrs {
 				plan.Err = faults.NewNotFound(fmt.Sprint(k))
+			} else if w.tempErrs {
+				plan.Err = faults.NewTemp(fmt.Sprint(k))
 			}
 			restoreFault(run, w, truth, []*faults.Plan{plan}, twinBytes, fmt.Sprintf("call#%d", k))
 		})
